@@ -163,6 +163,27 @@ def stress_derived_names(ctx, x, x_0):
     return ctx(r)
 
 
+def stress_pair_f(ctx, x, y):
+    # with stress_pair_g on one context: f names the product `t` and needs `square`, which python / cpp do not
+    # have natively (so a print before expansion fails half-way); g re-uses the product and calls something else `t`
+    t = x * y
+    return ctx(ctx.square(t) + t)
+
+
+def stress_pair_g(ctx, x, y):
+    u = x * y
+    t = x + y
+    return ctx(t * t - u * u)
+
+
+def stress_mode_switch(ctx, x, y):
+    # one algorithm, two graphs of the SAME shape (same kinds of positions, same creation order) selected by a
+    # user context parameter: anything that identifies a graph by its shape instead of its content confuses them
+    if ctx.parameters.get("mode") == "multiplicative":
+        return ctx.select(x > y, x * y, x / y)
+    return ctx.select(x < y, x + y, x - y)
+
+
 def stress_shadow(ctx, x):
     # local names chosen to collide with names that library algorithms use internally
     one = ctx.constant(1, x)
@@ -194,6 +215,8 @@ STRESS = {
     "stress_constant_names": (stress_constant_names, 2, "float"),
     "stress_constant_left_compare": (stress_constant_left_compare, 1, "complex"),
     "stress_derived_names": (stress_derived_names, 2, "float"),
+    "stress_pair_f": (stress_pair_f, 2, "float"),
+    "stress_pair_g": (stress_pair_g, 2, "float"),
 }
 # programs that only some targets / configurations accept on the unchanged tree: explicit requests
 STRESS_EXPLICIT = [
@@ -207,7 +230,12 @@ STRESS_EXPLICIT = [
     dict(target="stablehlo", func="stress_literal_infinities", sig=[":float"]),
     dict(target="xla_client", func="stress_literal_infinities", sig=[":float"]),
 ]
-STRESS_FUNCS_EXPLICIT = {"stress_list_args": stress_list_args, "stress_literal_infinities": stress_literal_infinities}
+for _t in TARGETS:
+    for _mode in ("additive", "multiplicative"):
+        STRESS_EXPLICIT.append(dict(target=_t, func="stress_mode_switch",
+                                    sig=[{"python": ":float", "stablehlo": ":float", "xla_client": ":float"}.get(_t, ":float64")] * 2,
+                                    params={"mode": _mode}))
+STRESS_FUNCS_EXPLICIT = {"stress_mode_switch": stress_mode_switch, "stress_list_args": stress_list_args, "stress_literal_infinities": stress_literal_infinities}
 
 STRESS_SIGS = {
     "python": {"float": [":float"], "complex": [":complex"]},
@@ -217,6 +245,24 @@ STRESS_SIGS = {
     "cpp": {"float": [":float32", ":float64"], "complex": [":complex64", ":complex128"]},
     "lax": {"float": [":float32", ":float64"], "complex": [":complex64"]},
 }
+
+
+def make_overrides2():
+    """Another user module with the SAME __name__ as make_overrides() but different definitions: providers are
+    objects, not names."""
+
+    class UserOverrides:
+        @staticmethod
+        def hypot(ctx, x, y):
+            mx = ctx.maximum(abs(x), abs(y))
+            return mx + ctx.minimum(abs(x), abs(y)) * 0.5
+
+        @staticmethod
+        def square(ctx, x):
+            return x * x - 0 * x
+
+    UserOverrides.__name__ = "UserOverrides"
+    return UserOverrides
 
 
 def make_overrides():
@@ -333,6 +379,8 @@ def build_universe(fa, extra_targets=()):
             for i, sig in enumerate(sigs[:2]):
                 out.append(dict(target=t, func=func, sig=[s if isinstance(s, str) else s.__name__ for s in sig], sigidx=i,
                                 params={"__paths__": "overrides"}))
+                out.append(dict(target=t, func=func, sig=[s if isinstance(s, str) else s.__name__ for s in sig], sigidx=i,
+                                params={"__paths__": "overrides2"}))
         for name in sorted(STRESS):
             _, nargs, kind = STRESS[name]
             for i, ty in enumerate(STRESS_SIGS[t][kind]):
@@ -367,8 +415,11 @@ def make_context(fa, target, params=None, how="ctor"):
     parameter "__paths__" = "overrides" lists a user module before fa.algorithms."""
     params = dict(params or {})
     paths = [fa.algorithms]
-    if params.pop("__paths__", None) == "overrides":
+    which = params.pop("__paths__", None)
+    if which == "overrides":
         paths = [make_overrides(), fa.algorithms]
+    elif which == "overrides2":
+        paths = [make_overrides2(), fa.algorithms]
     for k in [k for k in params if k.startswith("__") and k != "__alt__"]:
         params.pop(k)  # print-time options (see print_options), not context parameters
     kw = context_params(target)
